@@ -41,3 +41,22 @@ Theorem c17_locked_writers : forall (ws : list bytes) sched,
   emit_locked ws sched = concat (map (fun t => nth t ws []) sched).
 Proof. exact locked_writers_never_interleave. Qed.
 Print Assumptions c17_locked_writers.
+
+(* writes that fail: as long as a failed write leaves nothing on the wire (it fails before it
+   starts, or the connection is not used again), the reader gets exactly the messages whose write
+   was reported as done — once, intact, in order, for every chunking and every pause of the reader.
+   A write deadline that cuts a message short on a connection that stays in use breaks this. *)
+Theorem c17_done_writes_delivered : forall chunks ws,
+  clean_failures ws -> Forall no_nl (map w_msg ws) -> concat chunks = wire ws ->
+  decode_stream bytes scan_line [] chunks = (reported_done ws, []).
+Proof. exact done_writes_delivered. Qed.
+Print Assumptions c17_done_writes_delivered.
+Theorem c17_partial_write_refuted :
+  let m1 := [123; 34; 97; 34; 58; 49; 125]%N in
+  let m2 := [123; 34; 98; 34; 58; 50; 125]%N in
+  let ws := [{| w_msg := m1; w_done := false; w_sent := 3 |}; {| w_msg := m2; w_done := true; w_sent := 0 |}] in
+  reported_done ws = [m2] /\
+  decode_stream bytes scan_line [] [wire ws] = ([[123; 34; 97] ++ m2]%N, []) /\
+  let ws' := [{| w_msg := m1; w_done := false; w_sent := 0 |}; {| w_msg := m2; w_done := true; w_sent := 0 |}] in
+  decode_stream bytes scan_line [] [wire ws'] = ([m2], []).
+Proof. exact partial_write_then_continue_refuted. Qed.
